@@ -178,16 +178,24 @@ func phaseH2Replay(cr *childResult, seed uint64, quick bool) {
 		n = 600
 	}
 	for i := 0; i < n; i++ {
-		runH2Scenario(cr, rng.Fork(), i)
+		r := rng.Fork()
+		again := *r
+		if !runH2Scenario(cr, r, i) {
+			cr.count("h2replay.retried")
+			if !runH2Scenario(cr, &again, i) {
+				cr.fail(hk.Failure{Sig: "liveness:h2replay", What: "a deterministic HTTP/2 scenario did not reach a quiescent point within 8 s, twice in a row (leaked stream reservation / stream never forgotten / request blocked?)",
+					Input: map[string]interface{}{"scenario": i}})
+			}
+		}
 	}
 }
 
-func runH2Scenario(cr *childResult, rng *hk.Rand, sidx int) {
+func runH2Scenario(cr *childResult, rng *hk.Rand, sidx int) (settled bool) {
 	m := hk.Pick(rng, []int{1, 2, 2, 3, 4, 250})
 	env, err := newH2Env(uint32(m))
 	if err != nil {
 		cr.Notes = append(cr.Notes, "h2replay: "+err.Error())
-		return
+		return true
 	}
 	defer env.srv.Close()
 	c := req.C().EnableInsecureSkipVerify().EnableForceHTTP2().SetTimeout(90 * time.Second)
@@ -345,11 +353,12 @@ func runH2Scenario(cr *childResult, rng *hk.Rand, sidx int) {
 		if len(cr.Notes) < 5 {
 			cr.Notes = append(cr.Notes, fmt.Sprintf("h2replay scenario %d: no quiescent point within 8 s (skipped) m=%d ops=%v", sidx, m, desc))
 		}
-		return
+		return false
 	}
 	cr.count(fmt.Sprintf("h2replay.max_concurrent_streams=%d", m))
 	coq := fmt.Sprintf("H2ReplayCase %d %s", m, hk.CoqList(steps))
 	cr.add(coq, map[string]interface{}{"kind": "h2replay", "max_concurrent_streams": m, "steps": desc}, coq, nontrivial && len(steps) >= 6)
+	return true
 }
 
 // ---------- samplers used by the stress phases ----------
